@@ -239,6 +239,17 @@ class LightNodeMixin:
                 msg = "Cannot add node %r multiple times as child." % (child,)
                 raise TreeError(msg)
 
+    def __check_children_loop(self, children):
+        # refuse loops before the first child is moved, the roll-back just restores the own children
+        path = tuple(self.iter_path_reverse())
+        for child in children:
+            if child is self:
+                msg = "Cannot set parent. %r cannot be parent of itself."
+                raise LoopError(msg % (child,))
+            if any(node is child for node in path):
+                msg = "Cannot set parent. %r is parent of %r."
+                raise LoopError(msg % (child, self))
+
     @children.setter
     def children(self, children):
         # convert iterable to tuple
@@ -249,6 +260,7 @@ class LightNodeMixin:
         del self.children
         try:
             self._pre_attach_children(children)
+            self.__check_children_loop(children)
             for child in children:
                 child.parent = self
             self._post_attach_children(children)
